@@ -64,10 +64,20 @@ Proof. eexists. eexists. split; [vm_compute; reflexivity|reflexivity]. Qed.
 Definition C06_compose_flat_bonding_level := CGV.Compose.Statements.C06_compose_flat.
 Definition C06_layered_base_is_flat_base := CGV.Compose.Statements.C06_layered_base.
 Definition C06_regrouped_cut_wf := CGV.Compose.Statements.C06_perm_cut_wf.
+(** the same for the graphs resolve() RETURNS at the first layer: a whole coarse resolve step (disconnected,
+    bonding, squash = identity, sort = identity relabelling of an in-order graph, annotate, names) returns, its fine
+    graph is still the skeleton of the coarse cut and, read with fragname := atomname, a base graph of the regrouped
+    cut; the composition theorem then starts from that returned graph *)
+Definition C06_coarse_step_returned := CGV.Compose.Statements.C06_coarse_step_returned.
+Definition C06_compose_flat_returned := CGV.Compose.Statements.C06_compose_flat_returned.
+Definition C12_sort_in_order := CGV.Compose.Statements.C12_sort_in_order.
 
 Print Assumptions C06_manual_is_prefix_of_iter.
 Print Assumptions C06_compose_flat_bonding_level.
 Print Assumptions C06_layered_base_is_flat_base.
+Print Assumptions C06_coarse_step_returned.
+Print Assumptions C06_compose_flat_returned.
+Print Assumptions C12_sort_in_order.
 Print Assumptions C06_all_is_last_of_iter.
 Print Assumptions C06_chain.
 Print Assumptions C06_past_end.
